@@ -29,6 +29,16 @@ def new_queue(label, item_type=None, rely=None):
 
 
 class QueuePlugin(object):
+    def getattr(self, interp, base, attr):
+        if isinstance(base, Opaque) and base.kind == "process" and attr == "exitcode":
+            # None while running; an int once the process has ended (!= 0 iff the target raised)
+            from .ops import OptionalVal
+            if "_g_exitcode" not in base.attrs:
+                base.attrs["_g_exitcode"] = OptionalVal(z3.Bool(fresh_name("finished")), z3.Int(fresh_name("exitcode")))
+            interp.path.event("exitcode_read", base, base.attrs["_g_exitcode"])
+            return base.attrs["_g_exitcode"]
+        return NotImplemented
+
     def havoc(self, interp, obj, expr):
         if isinstance(obj, Opaque) and obj.kind == "queue":
             from .symmap import fresh_bool_cube
@@ -76,6 +86,11 @@ def install(X):
     @X.register_opaque("queue", "put")
     def _(interp, q, args, kwargs):
         item = args[0]
+        if "timeout" in kwargs or len(args) > 2:
+            # bounded queue, put with a time-out: may raise Full whenever the queue is full
+            if interp.path.nondet("put_times_out"):
+                interp.path.event("q_put_full", q, item)
+                raise PyRaise("Full", origin="queue.put timed out (bounded queue full)")
         if isinstance(item, NTuple) and item.tname == "Pos":
             if q.attrs.get("_g_once"):
                 interp.side_obligation("each_position_is_put_at_most_once", z3.Not(q.attrs["_g_put"].has(item)))
